@@ -807,3 +807,100 @@ def construct_forms(h):
                 if r != a:
                     return {"reproduced": True, "call": "eval(repr(%r))" % a, "observed": repr(r), "expected": repr(a)}
     return {"reproduced": False}
+
+
+@probe("fixedarray")
+def fixedarray(h):
+    """C11/C13: FixedArray size invariant, ChangingIndex / IndexAsScalar / CreateCopy semantics, sources untouched"""
+    import copy
+    import numpy
+    from barril.units import FixedArray, Array, Scalar
+
+    mk = {"list": list, "tuple": tuple, "ndarray": lambda v: numpy.array(v, dtype=float)}
+
+    def state(fa):
+        return (list(float(x) for x in fa.GetValues()), fa.GetUnit(), fa.GetCategory(), fa.dimension, type(fa.GetValues()).__name__)
+
+    def ok(fa):
+        return isinstance(fa, FixedArray) and len(fa.GetValues()) == fa.dimension >= 2
+
+    for kind, f in mk.items():
+        base = [1.0, 2.0, 3.0]
+        fa = FixedArray(3, "depth", f(base), "m")
+        s0 = state(fa)
+        ops = {
+            "ChangingIndex(0, 5.0)": (lambda: fa.ChangingIndex(0, 5.0), ([5.0, 2.0, 3.0], "m", "depth")),
+            "ChangingIndex(1, (5.0,))": (lambda: fa.ChangingIndex(1, (5.0,)), ([1.0, 5.0, 3.0], "m", "depth")),
+            "ChangingIndex(-1, (50.0, 'cm'))": (lambda: fa.ChangingIndex(-1, (50.0, "cm")), ([100.0, 200.0, 50.0], "cm", "depth")),
+            "ChangingIndex(0, Scalar(5,'cm'))": (lambda: fa.ChangingIndex(0, Scalar(5.0, "cm")), ([5.0, 200.0, 300.0], "cm", "length")),
+            "ChangingIndex(0, Scalar(5,'cm'), use_value_unit=False)": (lambda: fa.ChangingIndex(0, Scalar(5.0, "cm"), use_value_unit=False), ([0.05, 2.0, 3.0], "m", "depth")),
+            "CreateCopy()": (lambda: fa.CreateCopy(), (base, "m", "depth")),
+            "CreateCopy(unit='cm')": (lambda: fa.CreateCopy(unit="cm"), ([100.0, 200.0, 300.0], "cm", "depth")),
+            "fa * 2": (lambda: fa * 2, ([2.0, 4.0, 6.0], "m", "depth")),
+            "copy.deepcopy": (lambda: copy.deepcopy(fa), (base, "m", "depth")),
+        }
+        for name, (op, (vals, unit, cat)) in ops.items():
+            try:
+                r = op()
+            except Exception as e:
+                return {"reproduced": True, "call": "%s on %r (%s)" % (name, fa, kind), "observed": repr(e), "expected": "a FixedArray"}
+            if state(fa) != s0:
+                return {"reproduced": True, "call": "%s (%s values)" % (name, kind), "observed": "source changed to %r" % (state(fa),), "expected": repr(s0)}
+            if not ok(r):
+                return {"reproduced": True, "call": "%s (%s values)" % (name, kind), "observed": repr(r), "expected": "len(values) == dimension >= 2"}
+            got = (list(float(x) for x in r.GetValues()), r.GetUnit(), r.GetCategory())
+            if not (all(close(a, b, 1e-12) for a, b in zip(got[0], vals)) and len(got[0]) == len(vals) and got[1:] == (unit, cat)):
+                return {"reproduced": True, "call": "%s on %r (%s values)" % (name, fa, kind), "observed": got, "expected": (vals, unit, cat)}
+        s = fa.IndexAsScalar(1)
+        if not (s.GetValue() == 2.0 and s.GetCategory() == "depth" and s.GetUnit() == "m"):
+            return {"reproduced": True, "call": "IndexAsScalar(1)", "observed": repr(s), "expected": "Scalar(2.0, 'm', 'depth')"}
+        for bad in (lambda: FixedArray(1, f([1.0]), "m"), lambda: FixedArray(3, f([1.0, 2.0]), "m"), lambda: fa.CreateCopy(values=f([1.0, 2.0])), lambda: FixedArray.CreateWithQuantity(fa.GetQuantity(), f([1.0])), lambda: fa + Array(f([10.0, 20.0]), "m")):
+            try:
+                r = bad()
+            except ValueError:
+                continue
+            except Exception as e:
+                return {"reproduced": True, "call": "size-breaking request (%s values)" % kind, "observed": repr(e), "expected": "ValueError"}
+            return {"reproduced": True, "call": "size-breaking request (%s values)" % kind, "observed": repr(r), "expected": "ValueError"}
+        if state(fa) != s0:
+            return {"reproduced": True, "call": "rejected requests (%s values)" % kind, "observed": "source changed", "expected": repr(s0)}
+    return {"reproduced": False}
+
+
+@probe("array_broadcast")
+def array_broadcast(h):
+    import numpy
+    from barril.units import Array
+
+    a = Array(numpy.array([1.0, 2.0, 3.0]), "m")
+    b = Array(numpy.array([10.0]), "m")
+    try:
+        r = a + b
+    except ValueError:
+        return {"reproduced": False}
+    return {"reproduced": True, "call": "%r + %r" % (a, b), "observed": repr(r), "expected": "ValueError (operands of different lengths)"}
+
+
+@probe("curve")
+def curve(h):
+    from barril.curve.curve import Curve
+    from barril.units import Array
+
+    a3, b3, a2 = Array([1.0, 2.0, 3.0], "m"), Array([4.0, 5.0, 6.0], "s"), Array([1.0, 2.0], "m")
+    try:
+        Curve(a2, b3)
+        return {"reproduced": True, "call": "Curve(len 2, len 3)", "observed": "accepted", "expected": "ValueError"}
+    except ValueError:
+        pass
+    c = Curve(a3, b3)
+    steps = [("SetImage", a2), ("SetDomain", Array([1.0], "s")), ("SetImage", Array([7.0, 8.0, 9.0], "m")), ("SetDomain", Array([0.0, 1.0, 2.0], "s")), ("SetImage", a2)]
+    for name, arr in steps:
+        before = (c.GetImage(), c.GetDomain())
+        try:
+            getattr(c, name)(arr)
+        except ValueError:
+            if (c.GetImage(), c.GetDomain()) != before or c.GetImage() is not before[0] or c.GetDomain() is not before[1]:
+                return {"reproduced": True, "call": "rejected %s" % name, "observed": "curve changed", "expected": "unchanged"}
+        if len(c.GetImage().GetValues()) != len(c.GetDomain().GetValues()):
+            return {"reproduced": True, "call": "%s(%r)" % (name, arr), "observed": [len(c.GetImage().GetValues()), len(c.GetDomain().GetValues())], "expected": "equal lengths"}
+    return {"reproduced": False}
